@@ -148,6 +148,15 @@ def check_assemble_application(tier, seed):
                 k = int(rng.integers(1, 4))
                 gens = [pool[np.sort(rng.integers(0, len(pool), size=ploidy[s]))] for _ in range(k)]
                 traces[s] = np.array([gens[int(rng.integers(0, k))] for _ in range(steps)])
+            if rep % 4 == 0:
+                # nothing reaches the threshold in any sample (NOA), yet the called genotypes contain
+                # the reference haplotype
+                thr = 1.0
+                for s in names:
+                    a = haps[np.zeros(ploidy[s], dtype=int)]
+                    b = haps[np.sort(rng.integers(1, len(haps), size=ploidy[s]))]
+                    b[0] = haps[1 + (ev % (len(haps) - 1))]
+                    traces[s] = np.array([a] * 5 + [b] * 3)
             fields = [FORMAT.GT, FORMAT.GPM, FORMAT.SPM, FORMAT.AFP, FORMAT.AOP, FORMAT.ACP, FORMAT.GP]
             prog = make_program(APP.program, names, ploidy, inb, fields, info_fields=[INFO.REFMASKED], haplotype_posterior_threshold=thr, mcmc_burn=0, sample_mcmc_temperatures={s: [1.0] for s in names})
             reads = {s: np.zeros((1, 3, 2)) + 0.5 for s in names}
